@@ -571,3 +571,130 @@ def parse_f6(s):
 
 FINAL_EXP = 3 * (Q ** 12 - 1) // R
 assert (Q ** 12 - 1) % R == 0
+
+
+# ------------------------------------------------------------------ polynomial root finding over Fq / Fq2
+# (used to construct inputs with special OUTPUTS: kernel points of the isogenies = roots of XDEN,
+#  points whose image has x = 0 = roots of XNUM, ...).  Polynomials are coefficient lists, constant term first.
+
+def _ptrim(K, p):
+    while p and K.is_zero(p[-1]):
+        p = p[:-1]
+    return p
+
+
+def _pmod(K, a, m):
+    a = list(a)
+    m = _ptrim(K, m)
+    inv_lead = K.inv(m[-1])
+    while len(a) >= len(m):
+        c = K.mul(a[-1], inv_lead)
+        if not K.is_zero(c):
+            off = len(a) - len(m)
+            for i, mc in enumerate(m):
+                a[off + i] = K.sub(a[off + i], K.mul(c, mc))
+        a.pop()
+    return _ptrim(K, a)
+
+
+def _pmulmod(K, a, b, m):
+    if not a or not b:
+        return []
+    r = [K.zero] * (len(a) + len(b) - 1)
+    for i, x in enumerate(a):
+        if K.is_zero(x):
+            continue
+        for j, y in enumerate(b):
+            r[i + j] = K.add(r[i + j], K.mul(x, y))
+    return _pmod(K, r, m)
+
+
+def _ppowmod(K, a, e, m):
+    r = [K.one]
+    a = _pmod(K, a, m)
+    while e:
+        if e & 1:
+            r = _pmulmod(K, r, a, m)
+        a = _pmulmod(K, a, a, m)
+        e >>= 1
+    return r
+
+
+def _pgcd(K, a, b):
+    a, b = _ptrim(K, a), _ptrim(K, b)
+    while b:
+        a, b = b, _pmod(K, a, b)
+    if a:
+        il = K.inv(a[-1])
+        a = [K.mul(c, il) for c in a]
+    return a
+
+
+def _psub(K, a, b):
+    n = max(len(a), len(b))
+    a = a + [K.zero] * (n - len(a))
+    b = b + [K.zero] * (n - len(b))
+    return _ptrim(K, [K.sub(x, y) for x, y in zip(a, b)])
+
+
+def poly_roots(K, f, rng, field_order=None):
+    """all roots in K of the polynomial f (list, constant term first), K in {F1, F2}"""
+    n = field_order or (Q if K is F1 else Q * Q)
+    f = _ptrim(K, list(f))
+    if len(f) <= 1:
+        return []
+    # split off the product of distinct linear factors: gcd(x^n - x, f)
+    xn = _ppowmod(K, [K.zero, K.one], n, f)
+    g = _pgcd(K, _psub(K, xn, [K.zero, K.one]), f)
+    roots = []
+
+    def split(h):
+        h = _ptrim(K, h)
+        if len(h) <= 1:
+            return
+        if len(h) == 2:
+            roots.append(K.mul(K.neg(h[0]), K.inv(h[1])))
+            return
+        while True:
+            a = K.rand(rng)
+            t = _ppowmod(K, [a, K.one], (n - 1) // 2, h)
+            d = _pgcd(K, _psub(K, t, [K.one]), h)
+            if 1 < len(d) < len(h):
+                split(d)
+                # quotient h / d by repeated gcd trick: use roots of d removed via exact division
+                q = _pdiv_exact(K, h, d)
+                split(q)
+                return
+    split(g)
+    return roots
+
+
+def _pdiv_exact(K, a, b):
+    a = list(a)
+    b = _ptrim(K, b)
+    il = K.inv(b[-1])
+    q = [K.zero] * (len(a) - len(b) + 1)
+    while len(a) >= len(b):
+        c = K.mul(a[-1], il)
+        q[len(a) - len(b)] = c
+        off = len(a) - len(b)
+        for i, bc in enumerate(b):
+            a[off + i] = K.sub(a[off + i], K.mul(c, bc))
+        a.pop()
+    return _ptrim(K, q)
+
+
+def gen_constants(path="/verif/lean/PP/Gen/Maps.lean"):
+    """decode the extracted raw (Montgomery) isogeny coefficient tables of lean/PP/Gen/Maps.lean"""
+    import re
+    src = open(path).read()
+    Rinv = finv(pow(2, 384, Q))
+    out = {}
+    for m in re.finditer(r"def (ISO\d+_\w+) : List \(?([^:=]*?)\)? := \[(.*?)\]\n", src, re.S):
+        name, body = m.group(1), m.group(3)
+        if "(" in body:
+            vals = [(int(a, 16) * Rinv % Q, int(b, 16) * Rinv % Q) for a, b in re.findall(r"\((0x[0-9a-f]+|\d+), (0x[0-9a-f]+|\d+)\)", body.replace("0x", "0x"))]
+        else:
+            vals = [int(t, 16 if t.startswith("0x") else 10) * Rinv % Q for t in re.findall(r"0x[0-9a-f]+|\b\d+\b", body)]
+        out[name] = vals
+    return out
